@@ -157,7 +157,8 @@ def configs(tier):
                             out.append({"formats": list(fs), "model": m, "backend": b, "shielding": sh, "cooling": th, "grainspec": bool(i % 2)})
                             i += 1
     for i_, c_ in enumerate(out):
-        c_["link"] = (tier != "quick") or i_ % 2 == 0
+        # (the one shielding table that calls into the utilities unit is always linked)
+        c_["link"] = (tier != "quick") or i_ % 2 == 0 or c_["shielding"].get("CO") == "VB88Table"
     # single-line probes: a symbol must be declared because the reaction that uses it is there, not because some
     # other reaction type of the same file happens to register it.  Every data line alone; lines with ice or grain
     # species under every dust model, gas-phase lines without one
@@ -249,6 +250,35 @@ def build_network(cfg):
     return net, refused, None
 
 
+def cmake_list(text, name, lists):
+    """the value of one list variable after the set()/list(APPEND) commands of a generated CMakeLists.txt, with
+    if(NOT "X" IN_LIST var) / if("X" IN_LIST var) blocks evaluated against `lists`; other commands are skipped"""
+    txt = re.sub(r"#[^\n]*", "", text)
+    val = {}
+    stack = []
+    for m in re.finditer(r"(\w+)\s*\(([^()]*)\)", txt):
+        cmd, args = m.group(1).lower(), m.group(2).split()
+        if cmd == "if":
+            mm = re.fullmatch(r'(NOT\s+)?"?(\w+)"?\s+IN_LIST\s+(\w+)', " ".join(args))
+            if mm:
+                inl = mm.group(2) in lists.get(mm.group(3), val.get(mm.group(3), []))
+                stack.append(inl != bool(mm.group(1)))
+            else:
+                stack.append(None)  # a condition this reader does not evaluate (MAKE_SHARED ...): commands inside are ignored
+        elif cmd == "else" and stack:
+            stack[-1] = None if stack[-1] is None else not stack[-1]
+        elif cmd == "endif" and stack:
+            stack.pop()
+        elif all(x is True for x in stack):
+            if cmd == "set" and args:
+                val[args[0]] = args[1:]
+            elif cmd == "list" and len(args) >= 2 and args[0] == "APPEND":
+                val.setdefault(args[1], []).extend(args[2:])
+    if name not in val:
+        raise HarnessError(f"CMakeLists.txt: no list {name}")
+    return val[name]
+
+
 def run_cfg(cfg):
     from ..harness.render import render, reset_globals, scratch, quiet
     from ..harness.cxx import GXX, SHIM, run as runcmd
@@ -323,7 +353,17 @@ def run_cfg(cfg):
         if cfg.get("link") and not viols and not others and cfg["backend"] != "cusparse":
             (d / "verif_main.cpp").write_text("int main() { return 0; }\n")
             extra = [str(VERIF / "cxx" / "stub_cvode.cpp")] if cfg["backend"] != "rosenbrock4" else []
-            srcs = [rel for rel in sorted(files) if rel.startswith("src/") and rel.endswith(".cpp")]
+            # the program is what the generated build description puts together: the object targets src/CMakeLists.txt
+            # lists (for a build without CUDA) plus the driver, not whatever happens to lie in src/
+            if "src/CMakeLists.txt" not in files:
+                raise HarnessError(f"no src/CMakeLists.txt rendered ({label})")
+            targets = cmake_list(files["src/CMakeLists.txt"], "OBJTARGETS", {"languages": ["C", "CXX"]})
+            srcs = []
+            for t_ in targets + ["naunet"]:
+                if f"src/{t_}.cpp" not in files:
+                    viols.append((f"C10:build-lists-missing-source:{t_}", f"{label}: src/CMakeLists.txt lists the object target {t_} but no src/{t_}.cpp is generated", cfg))
+                else:
+                    srcs.append(f"src/{t_}.cpp")
             rc, so, se = runcmd([GXX, "-std=c++17", "-w", "-O0", "-I", str(SHIM), "-I", "include", *srcs, *extra, "verif_main.cpp", "-o", "linked"], cwd=str(d), timeout=600)
             nfiles += 1
             if rc != 0:
